@@ -155,6 +155,12 @@ def run(ctx, R, tier):
     rate_rule(F, R)
     chunk_lookup(F, R)
     header_sized(F, R)
+    # 'an error value ... never invented samples': an error of the decoder (a failed seek included) ends the stream - it is
+    # propagated out of run() like a decode error (the C10 rule); a seek request is written whatever position the handle last saw
+    from .c10 import err_propagation
+    err_propagation(F, R)
+    from .c07 import write_unconditional
+    write_unconditional(F, R, rule='B.C18.cmd', floor=2, fn_filter=lambda q: 'sound::streaming::handle' in q and q.split('::')[-1].startswith('seek'))
     # 'after any sequence of seeks': a relative seek starts from the published playback position, which is published at full width
     from .c05 import published_width
     published_width(F, R, rule='B.C18.published', fn_filter=lambda q: 'sound::' in q, floor=6)
